@@ -25,10 +25,13 @@ theorem call_forwards_and_records (cfg : Cfg) (st : MSt) (m : String) (args zero
     let r := step cfg st (.call ⟨m, args, some f, zero⟩ hasResults)
     r.2 = .returned (f args) ∧
     r.1.invoked = st.invoked ++ [(m, args)] ∧
-    r.1.calls = setCalls st.calls m (st.calls m ++ [args]) := by
+    r.1.calls = setCalls st.calls m (st.calls m ++ [args]) ∧
+    -- the record is in place (and the lock released) when the function runs: re-entering the mock from
+    -- inside the function sees the call already recorded
+    r.1.seen = st.seen ++ [(st.calls m).length + 1] := by
   cases cfg with
   | mk stub resets => cases stub <;> cases hasResults <;>
-      simp [step, stepB, expectedBodies, emitted_call_ff, emitted_call_ft, emitted_call_tf, emitted_call_tt, execKinds, execKind]
+      simp [step, stepB, expectedBodies, emitted_call_ff, emitted_call_ft, emitted_call_tf, emitted_call_tt, execKinds, execKind, setCalls]
 
 /-- **nil function, no stub**: the call panics with a message naming `<M>Func`, before anything is
 recorded; the mock's state is unchanged. -/
@@ -96,7 +99,7 @@ theorem step_refines (cfg : Cfg) (st : MSt) (op : Op) :
   | call fr hr =>
     obtain ⟨m, args, func, zero⟩ := fr
     cases func with
-    | some f => simpa [specStep, recordedCall] using (call_forwards_and_records cfg st m args zero f hr).2.2
+    | some f => simpa [specStep, recordedCall] using (call_forwards_and_records cfg st m args zero f hr).2.2.1
     | none =>
       cases hs : cfg.stubImpl with
       | false => simpa [specStep, recordedCall, hs] using (nil_func_panics cfg hs st m args zero hr).2.2
@@ -132,7 +135,7 @@ theorem calls_observes_spec (cfg : Cfg) (ops : List Op) (st : MSt) (m : String) 
 example :
     let f : Frame := ⟨"Put", ["1", "a"], some (fun _ => ["ok"]), ["zero"]⟩
     let g : Frame := ⟨"Put", ["2", "b"], none, ["zero"]⟩
-    ((run ⟨true, true⟩ ⟨fun _ => [], []⟩ [.call f true, .call g true, .reset "Get", .calls "Put"]).2) =
+    ((run ⟨true, true⟩ ⟨fun _ => [], [], []⟩ [.call f true, .call g true, .reset "Get", .calls "Put"]).2) =
       [.returned ["ok"], .returned ["zero"], .returned [], .gotCalls [["1", "a"], ["2", "b"]]] := by decide
 
 end Mockery.C04
